@@ -117,7 +117,9 @@ Definition c13_corr (k : call) : bool :=
   match o with
   | OSet r t =>
       iret_eqb (Some (addr_or_nil k, r, enc (out_legacy (addr_or_nil k) r))) (k_ret k) && optz_eqb (Some t) (k_total k)
-  | _ => iret_eqb (k_pre_ret k) (k_ret k) && optz_eqb (k_pre_total k) (k_total k)
+  (* no return set by THIS call: nothing is left in the builder, whatever an earlier build() put there (k_pre_ret, k_pre_total
+     are recorded; before the repair recorded in known_findings.json `C13-stale-return-of-earlier-build` they were kept) *)
+  | _ => iret_eqb None (k_ret k) && optz_eqb None (k_total k)
   end.
 
 (* ---------- the property on the implementation's outputs ---------- *)
